@@ -62,6 +62,7 @@ type Attempt struct {
 	ReplyLost   bool // the reply was written but never read by the proxy
 	ReplyEnd    int64
 	lostChecked bool
+	UserMod     interface{}
 }
 
 // ---------------------------------------------------------------- nodes
@@ -165,6 +166,9 @@ func (c *BackendConn) OnData(l *simnet.Link, b []byte) {
 func (c *BackendConn) reply(stream int16, msg message.Message, att *Attempt, desc string) {
 	w := c.Node.w
 	frm := frame.NewFrame(c.Version, stream, msg)
+	if w.ReplyMod != nil && att != nil {
+		w.ReplyMod(att, frm)
+	}
 	if c.Compression != "" && msg.GetOpCode() != primitive.OpCodeReady && msg.GetOpCode() != primitive.OpCodeSupported {
 		switch c.Node.RespCompress {
 		case 0:
